@@ -127,3 +127,49 @@ for _combo in itertools.product((False, True), repeat=3):
             inline_get_cache_key=_ik)(WalkCounterSrc)
     except Exception as _exc:
         OPT_WALK_ERRORS[_combo] = _exc
+
+
+# family 5: the class overrides handlers that base classes *alias*
+# (IdentityMapper.map_product = map_sum, map_floor_div = map_quotient, ...): the alias
+# keeps meaning the base class's function, only sums and quotients are marked
+def _mark(tag, *children):
+    return prim.Call(prim.Variable(tag), tuple(children))
+
+
+class PlainMarker(IdentityMapper):
+    def map_sum(self, expr):
+        return _mark("marked_sum", *[self.rec(c) for c in expr.children])
+
+    def map_quotient(self, expr):
+        return _mark("marked_quotient", self.rec(expr.numerator), self.rec(expr.denominator))
+
+    def map_bitwise_or(self, expr):
+        return _mark("marked_or", *[self.rec(c) for c in expr.children])
+
+
+class MarkerSrc(CachedIdentityMapper):
+    def map_sum(self, expr):
+        return _mark("marked_sum", *[self.rec(c) for c in expr.children])
+
+    def map_quotient(self, expr):
+        return _mark("marked_quotient", self.rec(expr.numerator), self.rec(expr.denominator))
+
+    def map_bitwise_or(self, expr):
+        return _mark("marked_or", *[self.rec(c) for c in expr.children])
+
+    def get_cache_key(self, expr):
+        return (type(expr), expr)
+
+
+OPT_ALIAS = {}
+OPT_ALIAS_ERRORS = {}
+for _combo in itertools.product((False, True), repeat=5):
+    _da, _dk, _ir, _ic, _ik = _combo
+    if _ic and not (_da and _dk):
+        continue
+    try:
+        OPT_ALIAS[_combo] = optimize_mapper(
+            drop_args=_da, drop_kwargs=_dk, inline_rec=_ir, inline_cache=_ic,
+            inline_get_cache_key=_ik)(MarkerSrc)
+    except Exception as _exc:
+        OPT_ALIAS_ERRORS[_combo] = _exc
